@@ -4,6 +4,8 @@ import (
 	"bytes"
 	"sync"
 
+	"github.com/nats-io/nats.go"
+
 	"github.com/apache/thrift/lib/go/thrift"
 )
 
@@ -91,13 +93,16 @@ func (l *verifSlowLoop) Request(ctx FContext, payload []byte) (thrift.TTransport
 	}
 	return &thrift.TMemoryBuffer{Buffer: bytes.NewBuffer(out.Bytes()[4:])}, nil
 }
-func (l *verifSlowLoop) Oneway(ctx FContext, payload []byte) error { _, err := l.Request(ctx, payload); return err }
-func (l *verifSlowLoop) Open() error                               { return nil }
-func (l *verifSlowLoop) Close() error                              { return nil }
-func (l *verifSlowLoop) IsOpen() bool                              { return true }
-func (l *verifSlowLoop) Closed() <-chan error                      { return nil }
-func (l *verifSlowLoop) SetMonitor(FTransportMonitor)              {}
-func (l *verifSlowLoop) GetRequestSizeLimit() uint                 { return 0 }
+func (l *verifSlowLoop) Oneway(ctx FContext, payload []byte) error {
+	_, err := l.Request(ctx, payload)
+	return err
+}
+func (l *verifSlowLoop) Open() error                  { return nil }
+func (l *verifSlowLoop) Close() error                 { return nil }
+func (l *verifSlowLoop) IsOpen() bool                 { return true }
+func (l *verifSlowLoop) Closed() <-chan error         { return nil }
+func (l *verifSlowLoop) SetMonitor(FTransportMonitor) {}
+func (l *verifSlowLoop) GetRequestSizeLimit() uint    { return 0 }
 
 // two concurrent calls through one FStandardClient: each caller gets the answer to
 // its own request and the handler sees each argument exactly once
@@ -136,5 +141,41 @@ func VerifC01_ConcurrentCalls() {
 	}
 	args = h.args
 	verifAssert(len(args) == 2 && args[0] != args[1], "the handler ran once per request, with each argument once")
+	verifReach("end")
+}
+
+func init() {
+	verifHarnesses["VerifC07_Backlog"] = VerifC07_Backlog
+}
+
+// a backlog larger than the subscriber's work queue (64 slots + one worker; handler
+// slower than the publisher): nothing is dropped, order is kept
+func VerifC07_Backlog() {
+	newVerifBroker()
+	pf := NewFProtocolFactory(thrift.NewTBinaryProtocolFactoryDefault())
+	conn := &nats.Conn{}
+	factory := NewFNatsSubscriberFactoryBuilder(conn).WithQueueLength(uint(1 + verifChoice(2))).Build()
+	var log []string
+	sub := factory.GetTransport()
+	verifAssert(sub.Subscribe("alpha", verifRecv(pf, "op", func(ctx FContext, m *verifMsg) error {
+		verifYield("slow handler")
+		log = append(log, m.a)
+		return nil
+	})) == nil, "subscribe")
+	pub := NewFNatsPublisherTransportFactory(conn).GetTransport()
+	client := &FStandardClient{publisher: pub, protocolFactory: pf, limit: pub.GetPublishSizeLimit()}
+	n := 3
+	if verifParam() > 0 {
+		n = defaultWorkQueueLen + 3 + verifChoice(2)
+		verifReach("backlog-exceeds-queue")
+	}
+	for i := 0; i < n; i++ {
+		verifAssert(client.Publish(NewFContext("c"), "op", "alpha", &verifMsg{a: string(rune('a' + i))}) == nil, "publish")
+	}
+	verifBlockUntil(func() bool { return len(log) >= n }) // a dropped message is a deadlock here
+	for i := range log {
+		verifAssert(log[i] == string(rune('a'+i)), "delivered in publish order")
+	}
+	verifAssert(sub.Unsubscribe() == nil, "unsubscribe")
 	verifReach("end")
 }
